@@ -17,7 +17,7 @@ Exact(in, n) == [known |-> TRUE, ok |-> Len(in) = n, consumed |-> n, short |-> L
 Of(r) == [known |-> TRUE, ok |-> r.ok, consumed |-> r.consumed, short |-> r.short]
 
 KACReaders == {"ReadKeysAndCert", "ReadKeysAndCertElgAndEd25519", "ReadKeysAndCertX25519AndEd25519"}
-DestReaders == {"ReadDestination", "NewDestinationFromBytes", "NewDestination(ReadKeysAndCert)"}
+DestReaders == {"ReadDestination", "NewDestinationFromBytes", "NewDestination(ReadKeysAndCert)", "ReadDestinationFromLeaseSet"}
 RIReaders == {"ReadRouterIdentity", "NewRouterIdentityFromBytes", "NewRouterIdentityFromKeysAndCert(ReadKeysAndCert)"}
 IdentityReaders == KACReaders \cup DestReaders \cup RIReaders
 
